@@ -66,9 +66,17 @@ def run_case(case, layout_seed=None, snaps=True):
             ev.append({"c": "NewState", "h": h, "st": st, "out": {"exc": pylib.exc_name(e)}})
             return hist
     nxt = 0
+    seen_calls = set()
     for call in case["calls"]:
+        key = (call["act"], tuple(call["args"]))
+        if key not in seen_calls and case.get("ground", True):
+            seen_calls.add(key)
+            ev.append({"c": "Ground", "d": "d", "u": "u", "act": call["act"], "args": call["args"],
+                       "out": pylib.observe_grounding(dom, call["act"], call["args"], objects)})
         sh = f"s{call['s']}" if isinstance(call["s"], int) else call["s"]
         if sh not in states:
+            continue
+        if call["mode"] == "ground":
             continue
         if call["mode"] == "app":
             out = pylib.observe_applicable(dom, call["act"], call["args"], objects, states[sh])
